@@ -77,6 +77,9 @@ def main():
     hooks = subprocess.run("git -C /repo log --format=%h --grep='^verif hook' --reverse", shell=True,
                            stdout=subprocess.PIPE, text=True).stdout.split()
     order = [p for p in ALL if p in CLAIMS]
+    stray = [p for p in CLAIMS if p not in ALL]
+    if stray:
+        raise SystemExit("manifest.py: claims for ids that are not properties: %r" % [x[:40] for x in stray])
     man = {
         "version": 1,
         "setup_cmd": "cd /verif && ./setup.sh",
